@@ -88,6 +88,12 @@ func runValidity(c Case, tr *Tracer) {
 	d, perr := time.ParseDuration(ds)
 	var out string
 	var err error
+	if caseInt(c, "t")%2 == 0 {
+		// the same text has just been asked for in the other form, and a moment earlier within the same second
+		guard(func() { _, _ = smpp.ToValidatePeriod(now, ds, !rel) })
+		guard(func() { _, _ = smpp.ToValidatePeriod(now.Add(-300*time.Millisecond), ds, rel) })
+		guard(func() { _, _ = smpp.ToValidatePeriod(now.Add(400*time.Millisecond), ds, !rel) })
+	}
 	pan := guard(func() { out, err = smpp.ToValidatePeriod(now, ds, rel) })
 	whole := int64(d / time.Second) // truncated toward zero; only used when d >= 0
 	tr.emit(Ev{"ev": "Validity", "nowday": int(nowSecs / 86400), "nowsec": int(nowSecs % 86400), "dstr": S(ds),
